@@ -154,3 +154,16 @@ Theorem C04_semver_unparseable_never_matches : forall c x i expected,
   (forall v, ~ is_semver x v) -> semver_op c (JStr x) i expected = false.
 Proof. exact semver_unparseable_never_matches. Qed.
 Print Assumptions C04_semver_unparseable_never_matches.
+
+(* ---- attribute references against a declarative statement of the reference syntax (RefSpec.v) ---- *)
+From LD Require Import RefSpec.
+(* [is_ref x cs]: x is a plain name not starting with '/' (cs = [x]), or '/' followed by the non-empty components cs joined
+   by '/', with '~' written "~0" and '/' written "~1" inside a component *)
+Theorem C04_reference_accepts_exactly_the_paths : forall x cs,
+  (ref_valid (new_ref x) = true /\ ref_components (new_ref x) = cs) <-> is_ref x cs.
+Proof. exact ref_accepts_exactly_the_paths. Qed.
+Print Assumptions C04_reference_accepts_exactly_the_paths.
+Theorem C04_literal_name_is_itself : forall x, x <> [] ->
+  ref_valid (new_literal_ref x) = true /\ ref_components (new_literal_ref x) = [x].
+Proof. exact literal_is_itself. Qed.
+Print Assumptions C04_literal_name_is_itself.
